@@ -151,7 +151,33 @@ pub fn jura_order_of(v: &Value) -> jv::Order {
             _ => panic!("bad ctor"),
         };
     }
-    serde_json::from_value(jura_order_serde_json(v)).expect("jura order json")
+    match serde_json::from_value(jura_order_serde_json(v)) {
+        Ok(o) => o,
+        Err(e) => {
+            // the crate's Deserialize refuses this message; in-process callers can still build the same order through
+            // the public constructors when its shape is one they produce (plain Ioc / Gtc limit, no cloid)
+            let plain = v["reduce_only"].as_bool() == Some(false) && v["cloid"].is_null();
+            let tif = v["order_type"].get("Limit").and_then(|l| l["tif"].as_str()).map(|t| t.to_string());
+            let (asset, sz, px, buy) = (u(&v["asset"]), s(&v["sz"]), s(&v["limit_px"]), v["is_buy"].as_bool() == Some(true));
+            match (plain, tif.as_deref(), buy) {
+                (true, Some("Ioc"), true) => jv::Order::market_buy(asset, &sz, &px),
+                (true, Some("Ioc"), false) => jv::Order::market_sell(asset, sz, px),
+                (true, Some("Gtc"), true) => jv::Order::limit_buy(asset, sz, px),
+                (true, Some("Gtc"), false) => jv::Order::limit_sell(asset, sz, px),
+                _ => panic!("jura order json (no constructor builds this shape either): {}", e),
+            }
+        }
+    }
+}
+
+/// the JSON body a client would send for this scenario order: the scenario's own JSON when it is given as JSON (so
+/// that the server's Deserialize sees exactly that message), the serialisation of the constructed order otherwise
+pub fn jura_order_wire_json(v: &Value) -> Value {
+    if v.get("ctor").is_some() {
+        serde_json::to_value(jura_order_of(v)).unwrap()
+    } else {
+        jura_order_serde_json(v)
+    }
 }
 
 fn parse_bits(x: &Value) -> Value {
